@@ -121,6 +121,14 @@ func (w *World) RunTasks(reqs [][]*Req, cfg sched.Config, res *eng.Result) *sche
 		return 0
 	}
 	cfg.Sleep = SleepFn(reqs, cur, started, res)
+	// slow node: one task may stall at an arbitrary step while one or two whole requests of other
+	// tasks run to completion, and resume right after (see conc)
+	if cfg.StallPermille == 0 {
+		cfg.StallSite, cfg.StallPermille, cfg.StallHorizon = SiteReq, 150, 120
+		if AutoMode {
+			cfg.StallPermille, cfg.StallHorizon = 400, 3000
+		}
+	}
 	bodies := make([]func(*sched.Task), n)
 	for i := range bodies {
 		i := i
@@ -139,6 +147,7 @@ func (w *World) RunTasks(reqs [][]*Req, cfg sched.Config, res *eng.Result) *sche
 	res.SchedHash, res.SwitchHash, res.SwitchPairs, res.Sites = sr.SchedHash, sr.SwitchHash, sr.SwitchPairs, sr.SiteHits
 	res.Blocked = sr.BlockedHandovers
 	res.Faults["stalled-task"] += sr.Stalls
+	res.Probes["stall_ended_by_progress_of_others"] += sr.StallThaws
 	for st, n := range sr.BlockedStates {
 		res.Probes["blocked_outside_in_state:"+st] += n
 	}
